@@ -6,7 +6,8 @@ use crate::tree::method::code::{Label, LabelRange};
 pub(crate) struct Labels {
 	code_length: u16,
 	labels: HashMap<u16, Label>,
-	max_id: u16,
+	/// The id the next new label gets. An `u32`, as there can be 65536 labels (offsets `0..=code_length` with `code_length` up to 65535).
+	next_id: u32,
 }
 
 impl Labels {
@@ -14,14 +15,15 @@ impl Labels {
 		Labels {
 			code_length,
 			labels: HashMap::with_capacity(code_length as usize / 3),
-			max_id: 0,
+			next_id: 0,
 		}
 	}
 
 	fn get_or_add_unchecked(&mut self, pc: u16) -> &mut Label {
 		self.labels.entry(pc).or_insert_with(|| {
-			let label = Label { id: self.max_id };
-			self.max_id += 1;
+			// can't truncate: there are at most 65536 distinct keys, so `next_id` is at most 65535 here
+			let label = Label { id: self.next_id as u16 };
+			self.next_id += 1;
 			label
 		})
 	}
